@@ -18,7 +18,7 @@ ASSUMPTIONS = ["values annotated on non-note tokens (NaN or imputed) are not dem
                "monotonicity is demanded only for streams produced by tokenise"]
 REQUIRED_FLAGS = ["bar_in_partly_filled_bar", "signature_mid_bar_ignored", "signature_at_bar_start", "bare_running_value_token",
                   "rest_beyond_capacity", "note_after_rest", "imputation_on", "imputation_off", "graph_edge_replayed",
-                  "tokenise_stream_checked", "pad_start_stop", "graph_probe", "odd_resolution"] + ["pitch_class_%d" % i for i in range(12)]
+                  "tokenise_stream_checked", "pad_start_stop", "graph_probe", "odd_resolution", "long_stream"] + ["pitch_class_%d" % i for i in range(12)]
 
 FL = list(itertools.product((True, False), repeat=4))   # running, fuse_track, fuse_value, fuse_velocity
 _TOKS = {}
@@ -55,6 +55,8 @@ def units(ctx):
         yield ("pieces", fi)
     for fi in (0, 15):
         yield ("pitches", fi)
+    for fi in (0, 15, 5):
+        yield ("longstream", fi)
     # an odd resolution (15 ticks per quarter): bar capacities that are not multiples of the signature numerator
     for fi in (0, 15):
         t = tok(FL[fi], nt=1, ppqn=15)
@@ -365,6 +367,20 @@ def run_unit(unit, acc, ctx):
     elif kind == "graph":
         _, fi, imp = unit
         run_graph(acc, tok(FL[fi]), {"fl": list(FL[fi]), "nt": 2, "small": True}, imp, ctx["horizon"])
+    elif kind == "longstream":
+        # scale: a stream of several hundred tokens (cycling through the vocabulary with a stride), every token checked
+        t = tok(FL[unit[1]])
+        desc = {"fl": list(FL[unit[1]]), "nt": 2, "small": True}
+        vocab = list(t.dictionary)
+        for stride, n in ((5, 300), (7, 120)):
+            stream = [vocab[(i * stride + i // len(vocab)) % len(vocab)] for i in range(n)]
+            clock, info, notes = Clock(ppqn=t.ppqn), None, collections.Counter()
+            for i in range(n):
+                v, clock, info, notes, facts = check_node(t, stream[: i + 1], False, clock, info if i else None, notes)
+                record(acc, desc, False, stream[: i + 1], v, facts)
+                if v or info is None or notes is None:
+                    break
+            acc.flags["long_stream"] += 1
     elif kind == "pitches":
         # every pitch of the default vocabulary (all twelve pitch classes, both range limits)
         t = tok(FL[unit[1]], nt=1, small=False)
